@@ -128,3 +128,40 @@ Proof.
   eexists _, _. split; [vm_compute; reflexivity|]. vm_compute.
   repeat split; first [isin | notin | reflexivity].
 Qed.
+
+(* ------------------------------------------------------------ generator.Generate *)
+
+Lemma final_state_ok p : exec_ok (nroots p) (final_state p).
+Proof.
+  unfold final_state. pose proof (exec_phase_ok p) as H.
+  destruct (exec_phase p) as [rs st|st o]; [exact H| exact (proj1 H)].
+Qed.
+
+Lemma handover_eval_order_l p rs st : exec_phase p = XDone rs st -> handover p = Some [rs; rs; rs].
+Proof.
+  intro H. unfold handover, generate_roots, final_state. rewrite H.
+  destruct (exec_phase_done p rs st H) as (R & _). now rewrite R.
+Qed.
+
+Lemma handover_order_l p ls : handover p = Some ls ->
+  exists l, ls = [l; l; l] /\ generate_roots p = Ok l /\ NoDup l /\
+    incl (s_regs (final_state p)) l /\
+    (forall x, In x l -> exists r, In r (s_regs (final_state p)) /\ reach (deps_of p) r x) /\
+    (forall u v, In u (s_regs (final_state p)) -> reach (deps_of p) u v -> u <> v -> before l v u).
+Proof.
+  unfold handover. destruct (generate_roots p) as [l| |] eqn:E; try discriminate.
+  intros [= <-]. exists l. split; [reflexivity|]. split; [reflexivity|].
+  unfold generate_roots, roots_of in E.
+  apply (roots_ok_spec (nroots p) (deps_of p) _ (deps_of_lt p) (xo_regs _ _ (final_state_ok p)) l E).
+Qed.
+
+Lemma handover_none_l p : handover p = None <-> cyclic (deps_of p) (s_regs (final_state p)).
+Proof.
+  unfold handover. pose proof (roots_cycle_spec (nroots p) (deps_of p) _ (deps_of_lt p) (xo_regs _ _ (final_state_ok p))) as C.
+  pose proof (roots_no_out_of_fuel (nroots p) (deps_of p) _ (deps_of_lt p) (xo_regs _ _ (final_state_ok p))) as F.
+  unfold generate_roots, roots_of. unfold cyclic.
+  destruct (roots (nroots p) (deps_of p) (s_regs (final_state p))) as [l| |].
+  - split; [discriminate|]. intro H. apply C in H. discriminate.
+  - split; [intros _; now apply C| reflexivity].
+  - congruence.
+Qed.
